@@ -101,9 +101,9 @@ PROPS["C05"] = {
     ],
 }
 PROPS["C14"]["runs"] = PROPS["C14"]["runs"] + [
-    {"entry": M + "/pkg/linux.VerifRoutes", "quick": {"N": "2"}, "thorough": {"N": "3"}, "classes": ["C14"]},
+    {"entry": M + "/pkg/linux.VerifRoutes", "quick": {"N": "2"}, "thorough": {"N": "2"}, "classes": ["C14"]},
 ]
-PROPS["C14"]["bounds"] = {"quick": PROPS["C02"]["bounds"]["quick"] + "; Linux routes n,m<=2", "thorough": PROPS["C02"]["bounds"]["thorough"] + "; Linux routes n,m<=3"}
+PROPS["C14"]["bounds"] = {"quick": PROPS["C02"]["bounds"]["quick"] + "; Linux routes n,m<=2", "thorough": PROPS["C02"]["bounds"]["thorough"] + "; Linux routes n,m<=2 (n,m<=3 is run under C05)"}
 
 ASA_ACL = M + "/pkg/asa.VerifASAACL"
 ASA_GRAPH = M + "/pkg/asa.VerifASAGraph"
